@@ -41,19 +41,44 @@ def run(prop, tier):
                 o["path"] = [1]
                 o[k] = [v]
                 envs.append([[{"name": "ka", "opts": o, "args": {kk: [] for kk in VALS}}]])
+        # explicit argument against a different value of the same option in the configuration (constructor form)
+        nover = 0
+        for k, vs in VALS.items():
+            for v1 in vs:
+                for v2 in vs:
+                    if v1 != v2:
+                        o = {kk: [] for kk in VALS}
+                        o["path"] = [1]
+                        a = {kk: [] for kk in VALS}
+                        o[k], a[k] = [v1], [v2]
+                        envs.append([[{"name": "ka", "opts": o, "args": a}]])
+                        nover += 1
         jobs = []
+        # live environments: repositories appended / prepended after names have been looked up
+        for i in range(12 if quick else 300):
+            e = rand_env(r)
+            while len(e) < 2:
+                e = rand_env(r)
+            idx = list(range(1, len(e) + 1))
+            r.shuffle(idx)
+            k = r.randint(1, len(idx) - 1)
+            jobs.append({"env": e, "how": "mutate", "plan": {"init": idx[:k], "ops": [[r.choice(["append", "prepend"]), ri] for ri in idx[k:]]}})
         for i, e in enumerate(envs):
             hows = ["ctor", "dict", "json", "yaml", "dump"]
-            for h in (hows if not quick else [hows[i % 5], hows[(i + 2) % 5], "dump"]):
+            if i >= len(envs) - nover:
+                hows = ["ctor", "dump"]
+            for h in (hows if not quick or len(hows) == 2 else [hows[i % 5], hows[(i + 2) % 5], "dump"]):
                 jobs.append({"env": e, "how": h})
         res = common.run_jobs("config_worker.py", jobs, wd, timeout=2400)
-        payload = [{"cfg": {"env": t["env"]}, "ev": [{k: v for k, v in e.items()} for e in t["ev"]]} for t in res]
+        payload = [{"cfg": {"env": t["env"]}, "ev": [dict({"destructive": True, "dpid": 0, "mpid": 0}, **e) for e in t["ev"]]} for t in res]
         rej, vr = tlc.validate_traces("TraceConfig", payload, wd, timeout=1500)
         rep.add_tlc(vr, "trace validation TraceConfig")
         rep.cov["traces_validated_against_impl"] = len(res)
         rep.cov["evaluations"] = sum(len(t["ev"]) for t in res)
         rep.cov["distinct_nontrivial"] = len({json.dumps([j["env"], j["how"]]) for j in jobs})
         rep.cov["rule"] = ("environments of 1-3 repositories defining clusters ka/kb (duplicates across repositories) with random subsets of "
+                           "(also: every option given in the configuration with a different explicit argument; live environments extended by "
+                           "append_repo / prepend_repo after look-ups) "
                            "the options {storage type, path, metadata path, memory cache, read-only, runner type} in the configuration and "
                            "as explicit arguments + every single option alone; realised as constructor arguments, inline dict, JSON files "
                            "(relative cluster files), YAML template with parameter, and Environment(env.to_dict()); each cluster name probed "
